@@ -212,6 +212,20 @@ func c07ExecLine(c *Case, l string, f []string) {
 		return
 	}
 	declS := c08SchemaString(decl)
+	// the DOCUMENTED schema, stated from the tags alone: a column is named by the part of the tag
+	// before the first comma and is nullable exactly when the field is a pointer or carries the
+	// `nullable` option (types are taken from the derivation; C08 compares those with the model)
+	docS := declS
+	if dfs, ok := c07FieldsFromArrow(decl.Fields()); ok {
+		if c07ApplyDocumentedRule(ty, dfs) {
+			docS = c08FieldsString(c07FieldsToArrow(dfs))
+		} else {
+			docS = "?"
+		}
+		if docS != declS {
+			c.Oracle("declared-nullability-wrong", fmt.Sprintf("%s: the declared parameter schema is %s; by the tags (pointer or `nullable` option => nullable, nothing else) it is %s", l, declS, docS))
+		}
+	}
 	batch, err := pb.build()
 	if err != nil {
 		c.Out(l, "err:script")
@@ -239,9 +253,10 @@ func c07ExecLine(c *Case, l string, f []string) {
 
 	// ---- property oracles, stated on the real outputs
 	core := pb.core()
-	equal := core != nil && c08FieldsString(c07FieldsToArrow(core.Fields)) == declS && decl.Equal(arrow.NewSchema(c07FieldsToArrow(core.Fields), nil))
+	// "equal" is equality with the DOCUMENTED schema (independent of what the code declares)
+	equal := core != nil && c08FieldsString(c07FieldsToArrow(core.Fields)) == docS
 	if ran && !equal {
-		c.Oracle("handler-ran-on-mismatched-schema", fmt.Sprintf("%s: declared %s", l, declS))
+		c.Oracle("handler-ran-on-mismatched-schema", fmt.Sprintf("%s: documented schema %s", l, docS))
 	}
 	if !ran && errKind != "TypeError" {
 		c.Oracle("refusal-is-not-a-typeerror", fmt.Sprintf("%s: answered %q", l, errKind))
@@ -364,6 +379,56 @@ func c07ReadResponse(data []byte) (excType string, hasResult bool) {
 		}
 	}
 	return excType, hasResult
+}
+
+// c07ApplyDocumentedRule rewrites names and nullability of fs (the columns of struct type t, in
+// order) by the documented rule, from the tags alone, recursing into struct-tagged children and
+// lists of them. false: the columns do not line up with the tagged fields.
+func c07ApplyDocumentedRule(t *c08Ty, fs []c07AF) bool {
+	i := 0
+	for _, f := range t.Fields {
+		if f.Tag == "" || f.Tag == "-" {
+			continue
+		}
+		if i >= len(fs) {
+			return false
+		}
+		parts := strings.Split(f.Tag, ",")
+		nullable := f.T.K == "ptr"
+		arrowType, elemType := "", ""
+		for _, p := range parts[1:] {
+			switch {
+			case p == "nullable":
+				nullable = true
+			case strings.HasPrefix(p, "default="):
+			case strings.HasPrefix(p, "elem="):
+				elemType = strings.TrimPrefix(p, "elem=")
+			default:
+				arrowType = p
+			}
+		}
+		fs[i].Name, fs[i].Nullable = parts[0], nullable
+		u := f.T
+		if u.K == "ptr" {
+			u = u.Elem
+		}
+		switch {
+		case arrowType == "struct" && u.K == "st" && fs[i].T.K == "struct":
+			if !c07ApplyDocumentedRule(u, fs[i].T.Fields) {
+				return false
+			}
+		case arrowType == "" && elemType == "struct" && u.K == "sl" && fs[i].T.K == "list" && fs[i].T.Elem.K == "struct":
+			e := u.Elem
+			if e.K == "ptr" {
+				e = e.Elem
+			}
+			if e.K == "st" && !c07ApplyDocumentedRule(e, fs[i].T.Elem.Fields) {
+				return false
+			}
+		}
+		i++
+	}
+	return i == len(fs)
 }
 
 // ---------------------------------------------------------------- oracle: what the handler must receive
@@ -770,6 +835,7 @@ func c07Gen(g *Gen) {
 			if !ok || c07LoneRequest(d) {
 				continue
 			}
+			c07ApplyDocumentedRule(st, d) // "equal" batches are built per the documented schema
 			decl = d
 		} else {
 			decl = []c07AF{{Name: "a", T: &c07AT{K: "i64"}}}
